@@ -150,3 +150,34 @@ package graph
 //@   requires s != nil && 0 <= node && node < len(s.nodes) && 0 <= edge && edge < len(s.nodes[node].oldEdges)
 //@   ensures [def] result == underlyingMap(s.nodes[node].oldNode, s.nodes[node].oldEdges[edge])
 //@   assigns nothing
+
+// ---------------------------------------------------------------------
+// MakeBiGraph (C18): a graph that already has In is returned as it is;
+// otherwise In is built as the transpose of Out: In(j) lists only nodes with
+// an edge to j, and every edge i -> j puts i into In(j). (Multiplicities of
+// parallel edges are not stated.) Graph contents are read in the entry state:
+// the function writes only storage it allocates.
+//@ spec hasEdge0(g Graph, i int, j int) bool = exists e in 0..len(g.Out(i)), t int :: t == old(g.Out(i)[e]) && t == j
+//@ spec hasI(s []int, y int) bool = exists q in 0..len(s) :: s[q] == y
+//@ spec predsShape(P [][]int, N int) bool =
+//@     len(P) == N && fresh(P) && (forall j in 0..N :: isnil(P[j]) || fresh(P[j])) &&
+//@     (forall j in 0..N, k in 0..N :: j != k && !isnil(P[j]) ==> region(P[j]) != region(P[k]))
+
+//@ func MakeBiGraph
+//@   model int
+//@   requires g.NumNodes() >= 0 && wfOut(g)
+//@   check @ret1 [same]      result == g
+//@   check @ret2 [wraps]     ptrcast(result, bigraph).Graph == g && len(preds) == g.NumNodes()
+//@   check @ret2 [sound]     forall j in 0..len(preds), q in 0..len(preds[j]) :: 0 <= preds[j][q] && preds[j][q] < g.NumNodes() && hasEdge0(g, preds[j][q], j)
+//@   check @ret2 [complete]  forall i in 0..g.NumNodes(), e in 0..len(g.Out(i)), t int :: t == old(g.Out(i)[e]) ==> hasI(preds[t], i)
+//@   loop 1 (i) modifies preds[*]
+//@   loop 1 (i) invariant predsShape(preds, g.NumNodes()) && (forall j in 0..len(preds), q in 0..len(preds[j]) :: 0 <= preds[j][q] && preds[j][q] < i && hasEdge0(g, preds[j][q], j)) && (forall a in 0..i, e in 0..len(g.Out(a)), t int :: t == old(g.Out(a)[e]) ==> hasI(preds[t], a))
+//@   loop 2 (j) forget
+//@   loop 2 (j) modifies preds[*]
+//@   loop 2 (j) invariant 0 <= i && i < g.NumNodes() && predsShape(preds, g.NumNodes()) && (forall y in 0..len(preds), q in 0..len(preds[y]) :: 0 <= preds[y][q] && preds[y][q] <= i && hasEdge0(g, preds[y][q], y)) && (forall a in 0..i, e in 0..len(g.Out(a)), t int :: t == old(g.Out(a)[e]) ==> hasI(preds[t], a)) && (forall a in i..i+1, e in 0.._k, t int :: t == old(g.Out(a)[e]) ==> hasI(preds[t], a))
+//@   assigns nothing
+//@ func bigraph.In
+//@   model int
+//@   requires b != nil && 0 <= i && i < len(b.preds)
+//@   ensures [def] len(result) == len(b.preds[i]) && (forall e in 0..len(result) :: result[e] == b.preds[i][e])
+//@   assigns nothing
